@@ -17,6 +17,7 @@ package main
 
 import (
 	"bufio"
+	"context"
 	"encoding/json"
 	"flag"
 	"fmt"
@@ -32,6 +33,8 @@ import (
 	"time"
 
 	NoKV "github.com/feichai0017/NoKV"
+	"github.com/feichai0017/NoKV/pb"
+	"github.com/feichai0017/NoKV/raftstore/client"
 	"github.com/feichai0017/NoKV/utils/verifhook"
 
 	"verif/lib/vr"
@@ -62,6 +65,7 @@ type c30Gateway struct {
 	opts     *NoKV.Options
 	mainDone chan struct{}
 	restore  func()
+	raft     *redisServer // non-nil: raft-backed gateway (no main(), no DB)
 }
 
 // c30StartMain runs main() with the embedded backend on dir and returns once it listens.
@@ -126,10 +130,16 @@ type c30Client struct {
 
 func (g *c30Gateway) dial() *c30Client {
 	cli, srv := net.Pipe()
-	select {
-	case g.ln.conns <- srv:
-	case <-time.After(2 * time.Minute):
-		vr.Fatalf("c30: gateway does not accept")
+	if g.raft != nil {
+		// raft-backed deployment: the real server + raftBackend over the harness-owned store
+		rs := g.raft
+		go rs.handleConn(srv)
+	} else {
+		select {
+		case g.ln.conns <- srv:
+		case <-time.After(2 * time.Minute):
+			vr.Fatalf("c30: gateway does not accept")
+		}
 	}
 	_ = cli.SetDeadline(time.Now().Add(10 * time.Minute)) // harness guard only
 	return &c30Client{conn: cli, rd: bufio.NewReader(cli)}
@@ -144,6 +154,95 @@ func (c *c30Client) do(args ...string) vrespReply {
 		vr.Fatalf("c30: reply to %v: %v", args, err)
 	}
 	return rep
+}
+
+// ---- raft-backed deployment: real raftBackend over a harness-owned store ------------------
+//
+// raftBackend talks to the cluster through two interfaces (raftClient, timestampAllocator).
+// The harness supplies a minimal store that honours the Percolator contract the real
+// raftstore client/TinyKv provide: monotonically increasing timestamps; BatchGet(v) returns
+// the newest version committed at or below v; Mutate(start, commit) is atomic and is
+// refused with a write-conflict KeyError if any touched key has a version committed at or
+// after start. Every call into the store is a scheduling point, so the interleavings are
+// those of the gateway's RPCs.
+
+type c30Version struct {
+	commit uint64
+	val    []byte
+	del    bool
+}
+
+type c30RaftStore struct {
+	mu       sync.Mutex
+	ts       uint64
+	versions map[string][]c30Version
+}
+
+func (s *c30RaftStore) Reserve(n uint64) (uint64, error) {
+	c30Point("raft.tso")
+	s.mu.Lock()
+	defer s.mu.Unlock()
+	first := s.ts + 1
+	s.ts += n
+	return first, nil
+}
+
+func (s *c30RaftStore) BatchGet(_ context.Context, keys [][]byte, version uint64) (map[string]*pb.GetResponse, error) {
+	c30Point("raft.get")
+	s.mu.Lock()
+	defer s.mu.Unlock()
+	out := map[string]*pb.GetResponse{}
+	for _, k := range keys {
+		resp := &pb.GetResponse{NotFound: true}
+		var best *c30Version
+		for i := range s.versions[string(k)] {
+			v := &s.versions[string(k)][i]
+			if v.commit <= version && (best == nil || v.commit > best.commit) {
+				best = v
+			}
+		}
+		if best != nil && !best.del {
+			resp = &pb.GetResponse{Value: append([]byte{}, best.val...)}
+		}
+		out[string(k)] = resp
+	}
+	return out, nil
+}
+
+func (s *c30RaftStore) Mutate(_ context.Context, primary []byte, muts []*pb.Mutation, start, commit, _ uint64) error {
+	c30Point("raft.mutate")
+	s.mu.Lock()
+	defer s.mu.Unlock()
+	var conflicts []*pb.KeyError
+	for _, m := range muts {
+		for _, v := range s.versions[string(m.GetKey())] {
+			if v.commit >= start {
+				conflicts = append(conflicts, &pb.KeyError{WriteConflict: &pb.WriteConflict{Key: m.GetKey(), Primary: primary, ConflictTs: v.commit, CommitTs: start}})
+				break
+			}
+		}
+	}
+	if len(conflicts) > 0 {
+		return &client.KeyConflictError{Errors: conflicts}
+	}
+	for _, m := range muts {
+		s.versions[string(m.GetKey())] = append(s.versions[string(m.GetKey())],
+			c30Version{commit: commit, val: append([]byte{}, m.GetValue()...), del: m.GetOp() == pb.Mutation_Delete})
+	}
+	return nil
+}
+
+func (s *c30RaftStore) CheckTxnStatus(context.Context, []byte, uint64, uint64) (*pb.CheckTxnStatusResponse, error) {
+	return nil, fmt.Errorf("c30 store: no locks exist")
+}
+func (s *c30RaftStore) ResolveLocks(context.Context, uint64, uint64, [][]byte) (uint64, error) {
+	return 0, fmt.Errorf("c30 store: no locks exist")
+}
+func (s *c30RaftStore) Close() error { return nil }
+
+func c30StartRaft() *c30Gateway {
+	st := &c30RaftStore{versions: map[string][]c30Version{}}
+	return &c30Gateway{raft: newServer(&raftBackend{client: st, ts: st})}
 }
 
 // ---- cooperative step scheduler -------------------------------------------------------
@@ -331,6 +430,26 @@ type c30Scenario struct {
 	Initial string // "" = key absent
 	Cmds    [][]string
 	Points  []string
+	Raft    bool
+}
+
+var c30RaftAll = []string{"raft.tso", "raft.get", "raft.mutate"}
+var c30RaftCore = []string{"raft.get", "raft.mutate"}
+
+func c30RaftScenarios(thorough bool) []c30Scenario {
+	sc := []c30Scenario{
+		{"raft/incr,incr", "", [][]string{{"INCR", "K"}, {"INCR", "K"}}, c30RaftAll, true},
+		{"raft/incr,incrby5@10", "10", [][]string{{"INCR", "K"}, {"INCRBY", "K", "5"}}, c30RaftAll, true},
+		{"raft/setnx,setnx", "", [][]string{{"SET", "K", "a", "NX"}, {"SET", "K", "b", "NX"}}, c30RaftAll, true},
+		{"raft/incr,incr,incr", "", [][]string{{"INCR", "K"}, {"INCR", "K"}, {"INCR", "K"}}, c30RaftCore, true},
+	}
+	if thorough {
+		sc = append(sc,
+			c30Scenario{"raft/setnx,setnx,setnx", "", [][]string{{"SET", "K", "a", "NX"}, {"SET", "K", "b", "NX"}, {"SET", "K", "c", "NX"}}, c30RaftCore, true},
+			c30Scenario{"raft/decr,incrby7,incr@-3", "-3", [][]string{{"DECR", "K"}, {"INCRBY", "K", "7"}, {"INCR", "K"}}, c30RaftCore, true},
+		)
+	}
+	return sc
 }
 
 var c30CorePoints = []string{"txn.begin", "txn.commit.tsAssigned"}
@@ -338,19 +457,19 @@ var c30AllPoints = []string{"txn.begin", "txn.get", "txn.commit.tsAssigned", "tx
 
 func c30Scenarios(thorough bool) []c30Scenario {
 	sc := []c30Scenario{
-		{"incr,incr", "", [][]string{{"INCR", "K"}, {"INCR", "K"}}, c30CorePoints},
-		{"incr,incrby5@10", "10", [][]string{{"INCR", "K"}, {"INCRBY", "K", "5"}}, c30CorePoints},
-		{"decr,incrby7@-3", "-3", [][]string{{"DECR", "K"}, {"INCRBY", "K", "7"}}, c30CorePoints},
-		{"setnx,setnx", "", [][]string{{"SET", "K", "a", "NX"}, {"SET", "K", "b", "NX"}}, c30CorePoints},
-		{"incr,incr,incr", "", [][]string{{"INCR", "K"}, {"INCR", "K"}, {"INCR", "K"}}, c30CorePoints},
-		{"setnx,setnx,setnx", "", [][]string{{"SET", "K", "a", "NX"}, {"SET", "K", "b", "NX"}, {"SET", "K", "c", "NX"}}, c30CorePoints},
-		{"incr,incr/all-points", "1", [][]string{{"INCR", "K"}, {"INCR", "K"}}, c30AllPoints},
+		{"incr,incr", "", [][]string{{"INCR", "K"}, {"INCR", "K"}}, c30CorePoints, false},
+		{"incr,incrby5@10", "10", [][]string{{"INCR", "K"}, {"INCRBY", "K", "5"}}, c30CorePoints, false},
+		{"decr,incrby7@-3", "-3", [][]string{{"DECR", "K"}, {"INCRBY", "K", "7"}}, c30CorePoints, false},
+		{"setnx,setnx", "", [][]string{{"SET", "K", "a", "NX"}, {"SET", "K", "b", "NX"}}, c30CorePoints, false},
+		{"incr,incr,incr", "", [][]string{{"INCR", "K"}, {"INCR", "K"}, {"INCR", "K"}}, c30CorePoints, false},
+		{"setnx,setnx,setnx", "", [][]string{{"SET", "K", "a", "NX"}, {"SET", "K", "b", "NX"}, {"SET", "K", "c", "NX"}}, c30CorePoints, false},
+		{"incr,incr/all-points", "1", [][]string{{"INCR", "K"}, {"INCR", "K"}}, c30AllPoints, false},
 	}
 	if thorough {
 		sc = append(sc,
-			c30Scenario{"incr,decrby2,incrby5@100", "100", [][]string{{"INCR", "K"}, {"DECRBY", "K", "2"}, {"INCRBY", "K", "5"}}, c30CorePoints},
-			c30Scenario{"setnx,setnx/all-points", "", [][]string{{"SET", "K", "a", "NX"}, {"SET", "K", "b", "NX"}}, c30AllPoints},
-			c30Scenario{"incr,incr,incr/all-points", "", [][]string{{"INCR", "K"}, {"INCR", "K"}, {"INCR", "K"}}, c30AllPoints},
+			c30Scenario{"incr,decrby2,incrby5@100", "100", [][]string{{"INCR", "K"}, {"DECRBY", "K", "2"}, {"INCRBY", "K", "5"}}, c30CorePoints, false},
+			c30Scenario{"setnx,setnx/all-points", "", [][]string{{"SET", "K", "a", "NX"}, {"SET", "K", "b", "NX"}}, c30AllPoints, false},
+			c30Scenario{"incr,incrby3,decr/+applied@5", "5", [][]string{{"INCR", "K"}, {"INCRBY", "K", "3"}, {"DECR", "K"}}, []string{"txn.begin", "txn.commit.tsAssigned", "txn.commit.applied"}, false},
 		)
 	}
 	return sc
@@ -450,6 +569,10 @@ func (rn *c30Runner) verdict(sc c30Scenario, e *c30Exec) (sig, desc, outcome str
 	if rn.g.opts != nil {
 		dc = strconv.FormatBool(rn.g.opts.DetectConflicts)
 	}
+	suffix := "deployed_detect_conflicts=" + dc
+	if sc.Raft {
+		suffix = "backend=raft"
+	}
 	var replies []string
 	for _, t := range e.threads {
 		replies = append(replies, strings.TrimSpace(t.reply.Raw))
@@ -463,7 +586,7 @@ func (rn *c30Runner) verdict(sc c30Scenario, e *c30Exec) (sig, desc, outcome str
 			}
 		}
 		if oks > 1 {
-			return fmt.Sprintf("setnx-multiple-ok scenario=%s oks=%d deployed_detect_conflicts=%s", sc.Name, oks, dc),
+			return fmt.Sprintf("setnx-multiple-ok scenario=%s oks=%d %s", sc.Name, oks, suffix),
 				fmt.Sprintf("%d concurrent SET NX on an absent key replied +OK (replies %v, final value %q)", oks, replies, final.Str), outcome
 		}
 		return "", "", outcome
@@ -490,7 +613,7 @@ func (rn *c30Runner) verdict(sc c30Scenario, e *c30Exec) (sig, desc, outcome str
 	}
 	got, err := strconv.ParseInt(final.Str, 10, 64)
 	if final.Kind != '$' || err != nil || got != want {
-		return fmt.Sprintf("lost-update scenario=%s final=%q want=%d deployed_detect_conflicts=%s", sc.Name, final.Str, want, dc),
+		return fmt.Sprintf("lost-update scenario=%s final=%q want=%d %s", sc.Name, final.Str, want, suffix),
 			fmt.Sprintf("counter ends at %q but initial %q plus the deltas of the commands that replied with an integer (%v) is %d", final.Str, sc.Initial, replies, want), outcome
 	}
 	return "", "", outcome
@@ -498,12 +621,15 @@ func (rn *c30Runner) verdict(sc c30Scenario, e *c30Exec) (sig, desc, outcome str
 
 // explore enumerates every schedule of sc below the given root prefixes.
 func (rn *c30Runner) explore(r *vr.Run, sc c30Scenario) {
-	// root prefixes of length 2 are distributed over the shards
+	// root prefixes of length 3 are distributed over the shards (every client has >= 2
+	// steps, so every schedule has at least 4 choices and extends exactly one root)
 	n := len(sc.Cmds)
 	var roots [][]int
 	for a := 0; a < n; a++ {
 		for b := 0; b < n; b++ {
-			roots = append(roots, []int{a, b})
+			for c := 0; c < n; c++ {
+				roots = append(roots, []int{a, b, c})
+			}
 		}
 	}
 	for ri, root := range roots {
@@ -568,12 +694,17 @@ func TestVerifC30(t *testing.T) {
 	if r.ReplayPath != "" {
 		var rp c30Replay
 		r.LoadReplay(&rp)
-		g := c30StartMain(r.Scratch() + "/replay")
+		var g *c30Gateway
+		if strings.HasPrefix(rp.Scenario, "raft/") {
+			g = c30StartRaft()
+		} else {
+			g = c30StartMain(r.Scratch() + "/replay")
+		}
 		rn := &c30Runner{g: g, p: vr.NewPartial()}
 		wu := rn.g.dial()
 		wu.do("SET", "c30:warmup", "1")
 		_ = wu.conn.Close()
-		for _, sc := range c30Scenarios(true) {
+		for _, sc := range append(c30Scenarios(true), c30RaftScenarios(true)...) {
 			if sc.Name != rp.Scenario {
 				continue
 			}
@@ -588,7 +719,9 @@ func TestVerifC30(t *testing.T) {
 				r.Violation(sig, desc, rp)
 			}
 		}
-		g.stop()
+		if g.raft == nil {
+			g.stop()
+		}
 		r.Finish(vr.Coverage{Level: "model_checking", Evaluations: 1, Distinct: 2, States: 1, Transitions: int64(len(rp.Schedule)), Rule: "replay of one schedule", Samples: []any{rp.Trace}})
 	}
 	base := r.Scratch()
@@ -609,6 +742,11 @@ func TestVerifC30(t *testing.T) {
 			p.Add("deployed_detect_conflicts", map[bool]int64{false: 0, true: 1}[g.opts.DetectConflicts])
 		}
 		g.stop()
+		// raft-backed deployment: real server + raftBackend, harness-owned store
+		rrn := &c30Runner{g: c30StartRaft(), p: p, shard: sh}
+		for _, sc := range c30RaftScenarios(r.Thorough()) {
+			rrn.explore(r, sc)
+		}
 	})
 	c := total.Counters
 	if c["executions"] == 0 {
@@ -620,14 +758,14 @@ func TestVerifC30(t *testing.T) {
 	outcomes := total.Card("outcomes")
 	r.RequireOutcomes(outcomes, 2)
 	var names []string
-	for _, sc := range scs {
+	for _, sc := range append(scs, c30RaftScenarios(r.Thorough())...) {
 		names = append(names, fmt.Sprintf("%s(points=%d)", sc.Name, len(sc.Points)))
 	}
 	r.Finish(vr.Coverage{
 		Level:       "model_checking",
 		Evaluations: c["executions"],
 		Distinct:    total.Card("schedules"),
-		Rule:        "all interleavings of 2-3 concurrent client commands at transaction-step granularity (coarse cooperative scheduling at verifhook points txn.begin / txn.get / txn.commit.tsAssigned / txn.commit.applied inside the real main()+handleConn+DB), every schedule executed from scratch on a fresh key; a state is a distinct trace of (client, step, reply)",
+		Rule:        "all interleavings of 2-3 concurrent client commands at transaction-step granularity (embedded: coarse cooperative scheduling at verifhook points txn.begin / txn.get / txn.commit.tsAssigned / txn.commit.applied inside the real main()+handleConn+DB; raft-backed: at every TSO / BatchGet / Mutate call the real raftBackend makes into a harness-owned Percolator-contract store), every schedule executed from scratch on a fresh key; a state is a distinct trace of (client, step, reply)",
 		Samples:     total.SamplesAny(),
 		States:      total.Card("states"),
 		Transitions: c["steps"],
@@ -638,6 +776,7 @@ func TestVerifC30(t *testing.T) {
 		Extra:       map[string]any{"deployed_detect_conflicts": c["deployed_detect_conflicts"] == 1, "violating_schedules_rerun_twice": c["validated"] / 2},
 		Assumptions: []string{"code between two scheduling points runs atomically (coarse mode): the read of a transaction is determined by its snapshot, the conflict check + timestamp assignment are atomic under the oracle lock",
 			"a client that has not taken its snapshot is treated as not enabled while another client is parked between commit-timestamp assignment and commit completion (oracle.readTs waits there); a wrong blocking model would surface as a harness error through the step guard",
-			"one long-lived main() per worker process, fresh key per schedule, one warm-up write so timestamps are non-zero"},
+			"one long-lived main() per worker process, fresh key per schedule, one warm-up write so timestamps are non-zero",
+			"raft-backed scenarios: the cluster behind raftBackend is replaced by a harness-owned store that honours the Percolator contract (monotone TSO, snapshot reads, atomic Mutate refused on a version committed at or after its start timestamp) and never leaves locks; the real raftstore client, RPC layer and TinyKv service are not in the loop"},
 	})
 }
